@@ -1617,9 +1617,16 @@ class Engine:
         tnames = [x.id for x in ast.walk(gen.target) if isinstance(x, ast.Name)]
         ren = {nm: f"_v{i}" for i, nm in enumerate(tnames)}
         free: list[str] = []
+        bound_inside: set[str] = set()
         for part in [n.elt] + list(gen.ifs):
             for x in ast.walk(part):
-                if isinstance(x, ast.Name) and x.id not in ren and x.id not in free:
+                if isinstance(x, ast.comprehension):
+                    bound_inside |= {y.id for y in ast.walk(x.target) if isinstance(y, ast.Name)}
+                elif isinstance(x, ast.Lambda):
+                    bound_inside |= {a_.arg for a_ in x.args.args}
+        for part in [n.elt] + list(gen.ifs):
+            for x in ast.walk(part):
+                if isinstance(x, ast.Name) and x.id not in ren and x.id not in free and x.id not in bound_inside:
                     known = (x.id in self.specs or x.id in self.builtins or x.id in self.contracts or x.id in self.consts
                              or x.id in self.tenv.records or x.id in self.tenv.aliases or x.id in ("True", "False", "None"))
                     if not known:
@@ -1634,8 +1641,32 @@ class Engine:
             def visit_Name(s_, node: ast.Name) -> Any:  # noqa: N805
                 return ast.copy_location(ast.Name(id=ren.get(node.id, node.id), ctx=node.ctx), node)
 
+        class _G(ast.NodeTransformer):      # a generator expression and a list comprehension denote the same list in the model
+            def visit_GeneratorExp(s_, node: ast.GeneratorExp) -> Any:  # noqa: N805
+                s_.generic_visit(node)
+                return ast.copy_location(ast.ListComp(elt=node.elt, generators=node.generators), node)
+
+        inner_bound: dict[str, str] = {}
+        for part in [n.elt] + list(gen.ifs):      # variables bound by comprehensions / lambdas nested in the element: canonical names too
+            for x in ast.walk(part):
+                if isinstance(x, ast.comprehension):
+                    for nm in [y.id for y in ast.walk(x.target) if isinstance(y, ast.Name)]:
+                        if nm not in ren:
+                            inner_bound.setdefault(nm, f"_i{len(inner_bound)}")
+                elif isinstance(x, ast.Lambda):
+                    for a_ in x.args.args:
+                        if a_.arg not in ren:
+                            inner_bound.setdefault(a_.arg, f"_i{len(inner_bound)}")
+
+        class _I(ast.NodeTransformer):
+            def visit_Name(s_, node: ast.Name) -> Any:  # noqa: N805
+                return ast.copy_location(ast.Name(id=inner_bound.get(node.id, node.id), ctx=node.ctx), node)
+
+            def visit_arg(s_, node: ast.arg) -> Any:  # noqa: N805
+                return ast.copy_location(ast.arg(arg=inner_bound.get(node.arg, node.arg), annotation=None), node)
+
         def norm(e: ast.AST) -> str:
-            return ast.unparse(_R().visit(copy.deepcopy(e)))
+            return ast.unparse(_I().visit(_G().visit(_R().visit(copy.deepcopy(e)))))
         text = f"{xs.ty.name}|{[p.ty.name for p in pvals]}|{norm(gen.target)}|{norm(n.elt)}|{[norm(c) for c in gen.ifs]}"
         tag = _h.sha1(text.encode()).hexdigest()[:8]
         cache = self.__dict__.setdefault("_closed_comp", {})
